@@ -117,6 +117,12 @@ reg('C17', 'Hypothesis HTML and CSS document trees with generator-recorded groun
     'selected item models are compared exactly with the record (select_item_css inside an item: validity of ranges).',
     'Boundary positions of sections are two-valued; for a declaration terminated by `}` select_item_css may end the full range at the value end, the brace or after it; values have no embedded comments.')
 
+reg('C11', 'exhaustive line × caret enumeration + Hypothesis lines (consistency predicate) and generated abbreviation × context embedding (round trip)',
+    'Every line of length ≤ 4 (quick) / ≤ 5 (thorough) over a 16-symbol alphabet × every caret −2..len+2 × 4 option sets, and Hypothesis lines ≤ 80 × type × lookAhead × 5 prefixes are checked against the consistency '
+    'predicate; valid abbreviations (serialised G1 scripts with attribute sets, texts, groups, repeaters; G5 stylesheet abbreviations) are embedded after 21 left contexts (blanks, words, complete tags with quoted/unquoted '
+    'attributes) and before 6 right contexts or with the caret before their auto-closed tail, and extract must return exactly the embedded abbreviation.',
+    'Payloads keep brackets balanced as the backward scanner requires; the abbreviation is first confirmed to expand (723 of ~9000 generated ones are skipped, counted in evidence).')
+
 NOT_APPLICABLE = [
 ]
 
